@@ -34,8 +34,11 @@ AccrualHit(t, st, k) ==
     IF ~st.enabled THEN st
     ELSE LET s1 == IF k \in st.steps THEN st ELSE Emit([st EXCEPT !.steps = @ \cup {k}], "hit", k)
          IN IF s1.steps = 0..(cfg.n - 1) THEN CompleteF(t, s1) ELSE s1
+\* a sequence step listens to event cfg.ev[step]; the same event may be listed for several (also consecutive) steps: one
+\* posting of it advances at most one step - the current one, if that is the event it waits for
+WaitsFor(st, k) == st.value >= 0 /\ st.value < cfg.n /\ cfg.ev[st.value + 1] = k
 SequenceHit(t, st, k) ==
-    IF ~st.enabled \/ k # st.value THEN st
+    IF ~st.enabled \/ ~WaitsFor(st, k) THEN st
     ELSE LET s1 == Emit([st EXCEPT !.value = @ + 1], "hit", st.value + 1)
          IN IF s1.value >= cfg.n THEN CompleteF(t, s1) ELSE s1
 TimeoutF(t, st) == ResetF(t, Emit([st EXCEPT !.timeoutAt = 0], "timeout", 0))
@@ -44,7 +47,8 @@ Init == /\ cfg \in Configs /\ now = 0 /\ nops = 0 /\ act = [op |-> "init"]
         /\ s = (IF cfg.startEnabled THEN TimerStart(0, [Fresh EXCEPT !.enabled = TRUE]) ELSE Fresh)
 NothingDue == (s.ignoreUntil # 0 => s.ignoreUntil > now) /\ (s.timeoutAt # 0 => s.timeoutAt > now)
 Call(st2, a) == /\ NothingDue /\ nops < MaxOps /\ s' = st2 /\ nops' = nops + 1 /\ act' = a /\ UNCHANGED <<cfg, now>>
-Hit(k) == /\ (cfg.kind = "counter" => k = 0) /\ (cfg.kind # "counter" => k < cfg.n)
+Hit(k) == /\ (cfg.kind = "counter" => k = 0) /\ (cfg.kind = "accrual" => k < cfg.n)
+          /\ (cfg.kind = "sequence" => \E i \in 1..cfg.n : cfg.ev[i] = k)
           /\ Call(IF cfg.kind = "counter" THEN CounterHit(now, Clr(s))
                   ELSE IF cfg.kind = "accrual" THEN AccrualHit(now, Clr(s), k) ELSE SequenceHit(now, Clr(s), k),
                   [op |-> "hit", k |-> k])
@@ -84,7 +88,10 @@ CompleteWhenGoal == [][ (act'.op = "hit" /\ cfg.kind = "counter" /\ s.enabled /\
                           => (Has(s', "complete") <=> GoalReached(s.value + Sign * cfg.ival)) ]_vars
 ThenResetOrDisable == [][ Has(s', "complete") => /\ (cfg.disableOC => ~s'.enabled)
                                                  /\ (cfg.resetOC => ~s'.completed /\ (cfg.kind = "accrual" => s'.steps = {})) ]_vars
-SequenceStrict == [][ (act'.op = "hit" /\ cfg.kind = "sequence" /\ act'.k # s.value) => s' = Clr(s) ]_vars
+SequenceStrict == [][ (act'.op = "hit" /\ cfg.kind = "sequence") =>
+                         IF s.enabled /\ WaitsFor(s, act'.k)
+                         THEN NHits(s') = 1 /\ (s'.value = s.value + 1 \/ (Has(s', "complete") /\ cfg.resetOC))
+                         ELSE s' = Clr(s) ]_vars
 AccrualAnyOrder == [][ (act'.op = "hit" /\ cfg.kind = "accrual" /\ s.enabled /\ act'.k \notin s.steps) => Has(s', "hit") ]_vars
 WindowReopens == s.ignoreUntil # 0 => s.ignoreUntil >= now
 TypeOK == now \in 0..MaxTime /\ s.enabled \in BOOLEAN /\ s.completed \in BOOLEAN
